@@ -145,9 +145,14 @@ class SimFS:
     def put(self, name: str, data: bytes) -> str:
         p = self.path(name)
         self.files[p] = data
-        os.makedirs(os.path.dirname(p), exist_ok=True)
-        with _real_open(p, "wb") as f:  # also materialised: code bypassing the seam reads it
-            f.write(data)
+        try:
+            os.makedirs(os.path.dirname(p), exist_ok=True)
+            with _real_open(p, "wb") as f:  # also materialised: code bypassing the seam reads it
+                f.write(data)
+        except UnicodeEncodeError:
+            # non-ASCII name under an ASCII file-system encoding (C-locale slice): the file lives
+            # on the simulated disk only
+            return p
         # the simulation has no clock: every stored file carries the same modification time, as
         # after `cp -p` / `rsync -t` / unpacking an archive (a stat-validated cache must not
         # mistake a replaced file for the old one)
